@@ -69,6 +69,7 @@ type Server struct {
 	OnFrame  func(c *Conn, f *Frame)
 	OnHSDone func(c *Conn, authKey []byte, salt int64)
 	OnClose  func(c *Conn, err error)
+	OnSecret func(c *Conn, name string, val []byte) // values the client drew: nonce, new_nonce, g_b
 	Log      func(format string, a ...interface{})
 }
 
@@ -364,6 +365,9 @@ func (c *Conn) handlePlain(hs *hsState, f []byte) {
 	switch crc {
 	case CrcReqPQ:
 		hs.nonce = append([]byte{}, body.Take(16)...)
+		if s.OnSecret != nil {
+			s.OnSecret(c, "nonce", hs.nonce)
+		}
 		if s.HS.ServerNonce != nil {
 			hs.srvNonce = s.HS.ServerNonce()
 		} else {
@@ -419,6 +423,9 @@ func (c *Conn) handlePlain(hs *hsState, f []byte) {
 		in.Str()
 		in.Take(32)
 		hs.newNonce = append([]byte{}, in.Take(32)...)
+		if s.OnSecret != nil {
+			s.OnSecret(c, "new_nonce", hs.newNonce)
+		}
 		if in.Err != nil || !bytes.Equal(Sha1(m[20:len(m)-len(in.B)]), m[:20]) {
 			s.Log("conn %d: p_q_inner_data sha1 mismatch", c.ID)
 			c.Close()
@@ -491,6 +498,9 @@ func (c *Conn) handlePlain(hs *hsState, f []byte) {
 		in.Take(32)
 		in.I64()
 		gb := new(big.Int).SetBytes(in.Str())
+		if s.OnSecret != nil {
+			s.OnSecret(c, "g_b", gb.Bytes())
+		}
 		inner := dec[20 : len(dec)-len(in.B)]
 		if in.Err != nil || !bytes.Equal(Sha1(inner), dec[:20]) || len(in.B) > 15 {
 			s.Log("conn %d: client_DH_inner_data sha1/padding mismatch (pad %d)", c.ID, len(in.B))
